@@ -15,6 +15,8 @@ package main
 //        writers produced; a tap gives the trace) and over net.Pipe, a unix socket and a TCP socket
 //  (viii) calls issued while the connection is being torn down (c04teardown.go)
 //  (ix)  calls pipelined to one object whose method adds/removes objects of its own service (c04factory.go)
+//  (x)   statistics and traces of the objects switched on and off while several connections call them
+//        in turn and at once, with the same message ids (c04features.go)
 
 import (
 	"bytes"
@@ -505,8 +507,8 @@ func c04TraceTerm(l *c04Link) string {
 		var it []string
 		for _, x := range fs {
 			p := x.payload
-			if x.ty == net.Error {
-				p = nil
+			if x.ty == net.Error || x.ty == net.Event || (x.ty == net.Reply && x.act == 82) {
+				p = nil // not compared: error texts, trace events (part x), the statistics map
 			}
 			it = append(it, fmt.Sprintf("(%s, %s)", c04HdrList(x.ty, x.svc, x.obj, x.act, x.id), c04Z(p)))
 		}
@@ -1437,6 +1439,12 @@ func runC04(res *hx.Result, rng *hx.Rng, tier string, outdir string) {
 	cases := hx.NewCases(outdir, "C04cases", "From QV Require Import Call C04Run.", "mismatches cfg_obs rs ts ds", res, "rs", "rcase", "ts", "tcase", "ds", "dcase")
 	cases.Extra = append(cases.Extra, fmt.Sprintf("Definition cfg_obs : cfg := {| noncall_runs := %s; post_answered := %s |}.", hx.Bool(noncall), hx.Bool(postAnswered)))
 
+	if os.Getenv("QV_C04_ONLY") == "features" { // campaigns of part (x) alone
+		h.features(res, rng, cases, tier)
+		cases.Flush()
+		res.Notes = append(res.Notes, h.notes...)
+		return
+	}
 	// (i) raw frames: the full matrix first, then random ones
 	raw, err := h.newRaw()
 	if err != nil {
@@ -1503,6 +1511,9 @@ func runC04(res *hx.Result, rng *hx.Rng, tier string, outdir string) {
 	for i := 0; i < 6; i++ {
 		h.sharedEndpoint(res, i, i%2)
 	}
+
+	// (x) statistics and traces switched on and off while several connections call the objects
+	h.features(res, rng, cases, tier)
 
 	// (ii) concurrent callers over 1..3 connections, (iii) crossing replies
 	runs := 20
